@@ -104,7 +104,13 @@ def run_allfunc(procs, kwargs, falsy=False):
         return cb
 
     def func(name, **kw):
-        i = cur[0]
+        i, cur[0] = cur[0], None
+        if i is None:        # the predicate was not asked about this process: identify it by its namespec
+            from supervisor.options import make_namespec
+            i = next((j for j, p in enumerate(procs) if j not in facts['calls'] and make_namespec(p['group'], p['name']) == name), len(procs))
+            if i == len(procs):
+                facts['calls'].append(i); facts['inv_of_call'].append(inv[0]); log.append('c?=%s' % name)
+                return True
         log.append('c%d=%s' % (i, name))
         facts['calls'].append(i)
         facts['inv_of_call'].append(inv[0])
@@ -186,7 +192,7 @@ def mon_allfunc(ctx, procs, kwargs, facts, inp):
     if len(set(calls)) != len(calls):
         bad('func-called-twice', 'func called for positions %r' % calls)
     elif any(i not in elig for i in calls):
-        bad('func-called-for-ineligible', 'func called for %r, eligible %r' % (calls, elig))
+        bad('func-called-for-ineligible', 'func called for positions %r, eligible %r' % (calls, elig))
     elif calls != elig and facts['answered']:
         bad('func-not-called-for-eligible', 'func called for %r, eligible %r' % (calls, elig))
     if any(n != 1 for n in facts['inv_of_call']):
@@ -317,10 +323,11 @@ def dense_rpc(ctx, group_forms):
 
 
 def run(ctx):
-    run_allfunc_cases(ctx, allfunc_population(ctx))
     mons = [l2.mon_c13, l2.mon_c13_groups, l2.mon_c02, l2.mon_c06]
     l2common.run_all(ctx, dense_rpc(ctx, False), mons, correspond=True)
     l2common.run_all(ctx, dense_rpc(ctx, True), mons, correspond=False)
+    # after the L2 populations, so that they draw the same scenarios from ctx.rng as before the make_allfunc cases were added
+    run_allfunc_cases(ctx, allfunc_population(ctx))
 
 
 def replay(ctx, data):
@@ -344,11 +351,13 @@ LEVEL_TEXT = ("start_forks_only_if_eligible, start_true_sound, stop_not_running_
               "lemmas are proved for every process state, mood and environment answer.  Group/all forms: group_conservation (at every moment each "
               "eligible process is pending or has exactly one entry, equal to what its single call reported), group_entries_exact / "
               "group_one_entry_per_eligible (the final answer, as a permutation statement), group_answer_iff_pending, group_results_grow, "
-              "group_func_called_once, group_polls_once_per_invocation are proved for every environment and every number of invocations; "
+              "group_func_called_once, group_polls_once_per_invocation, group_pending_polled_n_times, group_answers_eventually are proved for every "
+              "environment and every number of invocations; "
               "the tests, returned values and entry fields of the closure, the loop-over-a-copy / remove(struct) structure, the three predicates "
               "and the predicate/method pairing of the six public methods are regenerated from /repo on every run")
 LEVEL_NOTE = ("the group theorems are about make_allfunc's closure with the behaviour of the single calls as an arbitrary input; that the "
               "single calls made inside a group call behave as the single-call theorems say (composition with Model/Sup.lean, where each call "
-              "also reaps) is checked by the L2 monitor mon_c13_groups, not proved; that the call eventually answers when every callback "
-              "eventually completes is checked by the monitor (allfunc-never-answers), not proved")
+              "also reaps and thereby changes the state the next predicate test sees) is checked by the L2 monitor mon_c13_groups, not proved; "
+              "group_answers_eventually (the call answers after at most K+1 invocations when every callback completes within K polls) is proved "
+              "for the closure, while that a real onwait callback does complete is the single-call side (deferred_start_sound / deferred_stop_sound)")
 DESIGN_REF = "DESIGN.md section 6, C13"
